@@ -232,8 +232,57 @@ def run(c):
                     break
 
 
+def plugin_cleans_up_leg(c, wd):
+    """A plugin that removes the tracepoint it registered in its own shutdown() (tidy plugins do): shutdown() still
+    completes - every other plugin is shut down, the agent is stopped - and nothing is raised into the application."""
+    import threading
+    out = {}
+
+    def body():
+        sysm = D.LifeSystem(wd, True, 'None', 'None', nplugins=3)
+        problems = []
+        try:
+            sysm.start()
+            base = sysm.path.rsplit('/', 1)[-1]
+            handle = sysm.deep.register_tracepoint(base, sysm.marks['beat'], {'fire_count': '-1', 'fire_period': '0',
+                                                                              'snapshot': 'no_collect',
+                                                                              'log_msg': 'tidy {n}'}, [])
+            first = sysm.plugins[0]
+            o_shutdown = first.shutdown
+
+            def tidy_shutdown():
+                o_shutdown()
+                handle.unregister()
+            first.shutdown = tidy_shutdown
+            for p in sysm.plugins:
+                del p.calls[:]
+            try:
+                sysm.deep.shutdown()
+            except BaseException as ex:
+                problems.append('shutdown() raised %r into the application' % (ex,))
+            if sysm.deep.started:
+                problems.append('the agent still counts as started after shutdown()')
+            for i, p in enumerate(sysm.plugins):
+                if not any(c_[0] == 'shutdown' for c_ in p.calls):
+                    problems.append('plugin %d was not shut down' % (i + 1))
+        finally:
+            sysm.close()
+        out['problems'] = problems
+    th = threading.Thread(target=body)
+    th.start()
+    th.join(90)
+    if 'problems' not in out:
+        raise tlc.MachineryError('plugin-cleans-up case did not finish')
+    c.traces_validated += 1
+    c.note_case(key=('plugin-cleans-up',), nontrivial=True)
+    if out['problems']:
+        p_ = c.save_replay({'kind': 'plugin-cleans-up', 'problems': out['problems']})
+        c.violation('a plugin unregisters its tracepoint in its own shutdown(): %s' % out['problems'][:3], p_)
+
+
 def run_with_e2e(c):
     run(c)
+    plugin_cleans_up_leg(c, tlc.scratch('c14p_'))
     # end to end: after the real deep.shutdown() over a real gRPC connection nothing reaches the service any more,
     # every snapshot handed over before was delivered, and no trace function is left installed
     from .. import e2e_leg
